@@ -11,6 +11,8 @@ C14.keys         pipe(): read_ends[R] = W, write_ends[W] = R, contents[R] = empt
                  receives [R, W]; read uses contents[RDI]; write uses contents[write_ends[RDI]]; no other entry changes
 C14.split        read: delivered = B[..m], contents[fd] := B[m..], RAX = m with m = min(count, len B) (per class);
                  write: contents[key] := B ++ G (or G when the entry is missing), G = guest bytes (RSI, RDX), RAX = RDX
+C14.atomic       a guest memory access that fails inside read / write / pipe makes the hook return that error with the
+                 descriptor maps and buffers exactly as they were (nothing is consumed or appended by a failed call)
 C14.passthrough  other syscall numbers / descriptors that are not pipe ends: Unhandled with nothing touched
 Declined: FIFO order over interleavings as such (a property of histories; it follows from the per-call transfer
 functions by induction, which is not mechanised here); collisions of the random descriptors.
@@ -107,6 +109,41 @@ def run(ctx):
                              if rule != "C14.passthrough" else "read/write on non-pipe descriptors must be left for other hooks")
             else:
                 ck.ok(rule, inst)
+    # ---- atomicity on failure: every path on which a guest memory access faults
+    for num, nm in sorted(want.items()):
+        c = by_num.get(num)
+        if c is None:
+            continue
+        b = facts.bodies[c]
+        where = "%s:%d (%s hook)" % (b["span"][0], b["span"][1], nm)
+        sm = SQ.SeqMapPrims(facts, MAPS, ("pipe_contents",))
+        outs, I, _ = C13.run_hook_closure(ctx, c, sm.intercept, None, mem_fail_paths=True)
+        abad = None
+        nf = 0
+        for o in outs:
+            if o.kind != "return" or not any(e[0] == "mem_fault" for e in o.path.events):
+                continue
+            nf += 1
+            fi = [i for i, e in enumerate(o.path.events) if e[0] == "mem_fault"][0]
+            if C13.hook_result(o) != "err":
+                abad = abad or "a failing guest memory access does not make the hook fail"
+            changed = [e for e in o.path.events if e[0] == "map" and e[1] in ("set", "remove")]
+            # in-place mutations through get_mut show up as a final root value that differs from the entry value
+            for M_ in MAPS:
+                for k_, v_ in roots(o, M_).items():
+                    init_ = ("sqatom", (M_, k_)) if M_ == "pipe_contents" else A.W(("mapval", M_, k_), 64)
+                    if v_ != init_ and v_ != SQ.ABSENT and o.path.tags.get(("pres", M_, k_)) is True and \
+                            not any(e[0] == "map" and e[1] == "set" and e[2] == M_ and e[3] == k_ for e in o.path.events):
+                        changed.append(("map", "in-place", M_, k_))
+            if changed and nm != "pipe":
+                abad = abad or "%s of %s although the guest memory access failed: bytes are lost or duplicated on a retry" % (
+                    changed[0][1], changed[0][2])
+        if nf == 0:
+            abad = abad or "no failing-access path found"
+        if abad:
+            ck.violation("C14.atomic", "syscall=%s" % nm, abad, where=where, what="a failed read/write must leave the pipe as it was")
+        else:
+            ck.ok("C14.atomic", "syscall=%s" % nm, nf)
     ck.floor("Handled paths decided by the sequence model", decided, 6)
     ck.sample({"rule": "C14", "handled_paths_decided": decided, "classes": [c[0] for c in CLASSES],
                "model": "maps " + ", ".join(MAPS) + "; byte vectors as segment lists with affine bounds"})
